@@ -208,7 +208,19 @@ func c20MsgSpecs() []msgSpec {
 		{"signature.StoreSignature", func() sdk.Msg { return &sigtypes.MsgStoreSignature{} }, []fieldAlpha{{"Creator", addrAlpha()}, {"StorageKey", strAlpha()}, {"SignatureJSON", jsonAlpha()}}},
 		{"signature.PublishReferencePayloadLink", func() sdk.Msg { return &sigtypes.MsgPublishReferencePayloadLink{} }, []fieldAlpha{{"Creator", addrAlpha()}, {"Key", strAlpha()}, {"Value", strAlpha()}}},
 		{"signature.CreateAccount", func() sdk.Msg { return &sigtypes.MsgCreateAccount{} }, []fieldAlpha{{"Creator", addrAlpha()}, {"AccAddressString", append(addrAlpha(), nv{"K", harness.AddrS("K"), false})},
-			{"PubKeyString", []nv{{"empty", "", false}, {"open", "{", false}, {"valid", pubKeyJSON("nobody"), false}, {"valid-A", pubKeyJSON("A"), false}, {"not-a-key", `{"@type":"/cosmos.bank.v1beta1.MsgSend"}`, false}, {"unknown-type", `{"@type":"/no.such.Type"}`, false}, {"null", "null", false}}}}},
+			{"PubKeyString", []nv{{"empty", "", false}, {"open", "{", false}, {"valid", pubKeyJSON("nobody"), false}, {"valid-A", pubKeyJSON("A"), false}, {"not-a-key", `{"@type":"/cosmos.bank.v1beta1.MsgSend"}`, false}, {"unknown-type", `{"@type":"/no.such.Type"}`, false}, {"null", "null", false},
+				// well-formed keys of registered types whose key bytes have the wrong length / are absent
+				{"secp256k1-32-bytes", `{"@type":"/cosmos.crypto.secp256k1.PubKey","key":"AAAAAAAAAAAAAAAAAAAAAAAAAAAAAAAAAAAAAAAAAAA="}`, false},
+				{"secp256k1-empty", `{"@type":"/cosmos.crypto.secp256k1.PubKey","key":""}`, false},
+				{"secp256k1-no-key", `{"@type":"/cosmos.crypto.secp256k1.PubKey"}`, false},
+				{"secp256k1-1-byte", `{"@type":"/cosmos.crypto.secp256k1.PubKey","key":"AA=="}`, false},
+				{"ed25519-33-bytes", `{"@type":"/cosmos.crypto.ed25519.PubKey","key":"AAAAAAAAAAAAAAAAAAAAAAAAAAAAAAAAAAAAAAAAAAAA"}`, false},
+				{"ed25519-32-bytes", `{"@type":"/cosmos.crypto.ed25519.PubKey","key":"AAAAAAAAAAAAAAAAAAAAAAAAAAAAAAAAAAAAAAAAAAA="}`, false},
+				{"ed25519-empty", `{"@type":"/cosmos.crypto.ed25519.PubKey","key":""}`, false},
+				{"secp256r1-empty", `{"@type":"/cosmos.crypto.secp256r1.PubKey"}`, false},
+				{"multisig-no-keys", `{"@type":"/cosmos.crypto.multisig.LegacyAminoPubKey","threshold":1,"public_keys":[]}`, false},
+				{"multisig-zero-threshold", `{"@type":"/cosmos.crypto.multisig.LegacyAminoPubKey","threshold":0,"public_keys":[` + pubKeyJSON("A") + `]}`, false},
+				{"multisig-nested-bad-key", `{"@type":"/cosmos.crypto.multisig.LegacyAminoPubKey","threshold":1,"public_keys":[{"@type":"/cosmos.crypto.secp256k1.PubKey","key":"AA=="}]}`, false}}}}},
 	}
 }
 
